@@ -6,6 +6,7 @@ from typing import Dict, List, Optional, Set, Tuple
 
 from ..cfg import CFG, Node
 from ..core import AnalysisError, Cls, Fn, Repo, call_name, calls_in, const_value, dotted, get_kw, last_attr, short, walk_no_nested
+from ..pat import has
 from ..registry import ALGOS, extract
 from ..report import Check
 from ..util import self_attr_stores
@@ -39,9 +40,14 @@ def run(ck: Check, repo: Repo) -> None:
                      "that inspect_attributes() does not filter out, so it is part of checkpoints (and of clones)")
     ck.rule("C07.8", "activation changes reach the constructor description: a module's change_activation that replaces or rebuilds its layers also stores the "
                      "new activation in the attributes init_dict reports (`activation`; `output_activation` when the output layer is changed), like its siblings do")
+    ck.rule("C07.9", "checkpointed tensors carry no autograd history: a public tensor attribute computed from the parameters of a network is detached "
+                     "(pickling drops the graph, so original and restored agent would otherwise back-propagate differently)")
     _restored_stays(ck, repo)
     _bookkeeping(ck, repo)
     _activation_description(ck, repo)
+    from ._c07_autograd import autograd_free_snapshots
+    _flt = _name_filter(repo)
+    autograd_free_snapshots(ck, repo, lambda a: _filtered(a, _flt))
     writer = repo.fn(BASE, "get_checkpoint_dict")
     load = repo.fn(BASE, "EvolvableAlgorithm.load")
     load_cp = repo.fn(BASE, "EvolvableAlgorithm.load_checkpoint")
@@ -224,6 +230,136 @@ def _activation_description(ck: Check, repo: Repo) -> None:
     ck.floor("C07.8", n, 4, "change_activation implementations with a body")
 
 
+# ------------------------------------------------------------------------------------------------ roles of locals
+# Nothing below recognises a local of the library by its spelling: every local is found by what is bound to it.
+def _bindings(root: ast.AST) -> List[Tuple[str, ast.AST]]:
+    """(local, rhs) of every plain / annotated / walrus binding of a bare name in the function."""
+    out: List[Tuple[str, ast.AST]] = []
+    for n in ast.walk(root):
+        if isinstance(n, ast.Assign):
+            out += [(t.id, n.value) for t in n.targets if isinstance(t, ast.Name)]
+        elif isinstance(n, (ast.AnnAssign, ast.NamedExpr)) and n.value is not None and isinstance(n.target, ast.Name):
+            out.append((n.target.id, n.value))
+    return out
+
+
+def _key_read(e: ast.AST, bases: Set[str]) -> Optional[ast.AST]:
+    """The key when e is `<base>[key]` / `<base>.get(key, ...)` and base is one of the given locals."""
+    if isinstance(e, ast.Subscript) and isinstance(e.value, ast.Name) and e.value.id in bases:
+        return e.slice
+    if isinstance(e, ast.Call) and isinstance(e.func, ast.Attribute) and e.func.attr == "get" and e.args and isinstance(e.func.value, ast.Name) and e.func.value.id in bases:
+        return e.args[0]
+    return None
+
+
+def _bound_to_key(root: ast.AST, bases: Set[str], key: str) -> Set[str]:
+    """Locals bound to `<base>["key"]` / `<base>.get("key")`."""
+    return {name for name, v in _bindings(root) if const_value(_key_read(v, bases)) == key}
+
+
+def _agent_name(fn: Fn) -> str:
+    """The agent being restored: `self`, or in a classmethod the local bound to `cls(...)` (first parameter called)."""
+    if "self" in fn.params:
+        return "self"
+    first = fn.named_params[0] if fn.named_params else None
+    made = {name for name, v in _bindings(fn.node) if isinstance(v, ast.Call) and isinstance(v.func, ast.Name) and v.func.id == first}
+    if len(made) != 1:
+        raise AnalysisError(f"{fn.qualname}: the local holding the constructed agent ({first}(...)) not found")
+    return made.pop()
+
+
+class _Roles:
+    """Locals of a loader by role: checkpoint (bound to torch.load), network info (bound to <checkpoint>["network_info"]),
+    per-network / per-optimizer selections (dict comprehension over <info>["modules"/"optimizers"].items() filtered with
+    .startswith(<loop variable>)), and the fields read out of a selection."""
+
+    def __init__(self, fn: Fn):
+        self.fn = fn
+        self.binds = _bindings(fn.node)
+        self.agent = _agent_name(fn)
+        self.ckpt: Set[str] = {n for n, v in self.binds if isinstance(v, ast.Call) and call_name(v) == "torch.load"}
+        self.info: Set[str] = _bound_to_key(fn.node, self.ckpt, "network_info")
+        self.sel: Dict[str, Dict[str, Set[str]]] = {"modules": {}, "optimizers": {}}  # kind -> selection local -> prefix variables
+        for n, v in self.binds:
+            hit = self.selection(v)
+            if hit is not None:
+                self.sel[hit[0]].setdefault(n, set()).add(hit[1])
+
+    def selection(self, v: ast.AST) -> Optional[Tuple[str, str]]:
+        if not (isinstance(v, ast.DictComp) and len(v.generators) == 1):
+            return None
+        g = v.generators[0]
+        it = g.iter
+        if not (isinstance(it, ast.Call) and isinstance(it.func, ast.Attribute) and it.func.attr == "items"):
+            return None
+        kind = const_value(_key_read(it.func.value, self.info))
+        if kind not in self.sel:
+            return None
+        for cond in g.ifs:
+            for c in ast.walk(cond):
+                if isinstance(c, ast.Call) and isinstance(c.func, ast.Attribute) and c.func.attr == "startswith" and len(c.args) == 1 and isinstance(c.args[0], ast.Name):
+                    return kind, c.args[0].id
+        return None
+
+    def nets(self) -> Set[str]:
+        return set(self.sel["modules"])
+
+    def opts(self) -> Set[str]:
+        return set(self.sel["optimizers"])
+
+    def reads(self, e: ast.AST, sel: Set[str], suffix: str) -> bool:
+        """e contains a read of the key f"{<x>}<suffix>" out of one of the selections."""
+        return any(_fsuffix(_key_read(x, sel)) == suffix for x in ast.walk(e))
+
+    def field(self, sel: Set[str], suffix: str) -> Set[str]:
+        """Locals holding the `<name><suffix>` entry of a selection (directly, copied, or moved to a device)."""
+        out: Set[str] = set()
+        grew = True
+        while grew:
+            grew = False
+            for n, v in self.binds:
+                src = v.args[0] if isinstance(v, ast.Call) and call_name(v) == "chkpt_attribute_to_device" and v.args else v
+                if n not in out and (_fsuffix(_key_read(src, sel)) == suffix or (isinstance(src, ast.Name) and src.id in out)):
+                    out.add(n)
+                    grew = True
+        return out
+
+
+def _writer_shape(writer: Fn) -> Tuple[bool, bool, bool]:
+    """get_checkpoint_dict: (every evolvable attribute handled or TypeError, attributes + network info in one dict,
+    module entries are the module's own init_dict / state_dict())."""
+    node = writer.node
+    agent = writer.named_params[0] if writer.named_params else "agent"
+    binds = _bindings(node)
+    loops = [n for n in walk_no_nested(node) if isinstance(n, ast.For) and isinstance(n.target, ast.Name) and isinstance(n.iter, ast.Call)
+             and dotted(n.iter.func) == f"{agent}.evolvable_attributes" and not n.iter.args and not n.iter.keywords]
+
+    def raises_type_error(lp: ast.For) -> bool:
+        return any(isinstance(x, ast.Raise) and x.exc is not None and dotted(x.exc.func if isinstance(x.exc, ast.Call) else x.exc) == "TypeError" for x in ast.walk(lp))
+
+    covers = any(raises_type_error(lp) for lp in loops)
+    # the dictionary of plain attributes and the network-info dictionary that is filled with .update()
+    plain = {n for n, v in binds if isinstance(v, ast.Call) and call_name(v) == "EvolvableAlgorithm.inspect_attributes" and [dotted(a) for a in v.args] == [agent] and not v.keywords}
+    info = {c.func.value.value.id for c in calls_in(node) if last_attr(c) == "update" and isinstance(c.func, ast.Attribute) and isinstance(c.func.value, ast.Subscript)
+            and isinstance(c.func.value.value, ast.Name) and const_value(c.func.value.slice) in ("modules", "optimizers")}
+    together = any(isinstance(n, ast.Assign) and isinstance(n.value, ast.Name) and n.value.id in info and const_value(_key_read(n.targets[0], plain)) == "network_info"
+                   for n in walk_no_nested(node))
+    # entries f"{<loop variable>}_suffix": value, <obj> = getattr(agent, <loop variable>)
+    fields = False
+    for lp in loops:
+        var = lp.target.id
+        objs = {n for n, v in _bindings(lp) if isinstance(v, ast.Call) and call_name(v) == "getattr" and [dotted(a) for a in v.args] == [agent, var]}
+        entries = [(k, v) for d in ast.walk(lp) if isinstance(d, ast.Dict) for k, v in zip(d.keys, d.values)
+                   if k is not None and _fsuffix(k) is not None and dotted(k.values[0].value) == var]
+        own_state = any(_fsuffix(k) == "_state_dict" and isinstance(v, ast.Call) and isinstance(v.func, ast.Attribute) and v.func.attr == "state_dict" and not v.args
+                        and isinstance(v.func.value, ast.Name) and v.func.value.id in objs for k, v in entries)
+        init_names = {v.id for k, v in entries if _fsuffix(k) == "_init_dict" and isinstance(v, ast.Name)}
+        own_init = any((n in init_names or _fsuffix(n) == "_init_dict") and isinstance(v, ast.Attribute) and v.attr == "init_dict" and isinstance(v.value, ast.Name) and v.value.id in objs
+                       for n, v in _bindings(lp) + entries)
+        fields = fields or (own_state and own_init)
+    return covers, together, fields
+
+
 def _written(writer: Fn) -> Tuple[Set[str], Set[str], Set[str]]:
     mod, opt, top = set(), set(), set()
     for c in calls_in(writer.node):
@@ -249,37 +385,53 @@ def _written(writer: Fn) -> Tuple[Set[str], Set[str], Set[str]]:
 
 def _read(fn: Fn) -> Tuple[Set[str], Set[str], Set[str]]:
     mod, opt, top = set(), set(), set()
+    roles = _Roles(fn)
     for n in ast.walk(fn.node):
-        key = None
-        base = None
-        if isinstance(n, ast.Subscript) and isinstance(n.ctx, ast.Load):
-            key, base = n.slice, n.value
-        elif isinstance(n, ast.Call) and last_attr(n) == "get" and n.args:
-            key, base = n.args[0], n.func.value
-        if key is None:
+        if isinstance(n, ast.Subscript) and not isinstance(n.ctx, ast.Load):
             continue
-        s = _fsuffix(key)
-        b = dotted(base)
+        s = _fsuffix(_key_read(n, roles.nets()))
         if s is not None:
-            if b == "net_dict":
-                mod.add(s)
-            elif b == "opt_dict":
-                opt.add(s)
-        elif isinstance(key, ast.Constant) and isinstance(key.value, str) and b in ("checkpoint", "network_info"):
-            top.add(key.value)
+            mod.add(s)
+        s = _fsuffix(_key_read(n, roles.opts()))
+        if s is not None:
+            opt.add(s)
+        k = const_value(_key_read(n, roles.ckpt | roles.info))
+        if isinstance(k, str):
+            top.add(k)
     return mod, opt, top
 
 
-def _order(ck: Check, repo: Repo, fn: Fn, modules_var: Optional[str]) -> None:
+def _order(ck: Check, repo: Repo, fn: Fn, collected: bool) -> None:
+    """collected: the loader gathers the rebuilt networks in a local dictionary (load) instead of reading them back from the agent."""
     cfg = CFG(fn.node)
     label = fn.name
+    roles = _Roles(fn)
+    agent = roles.agent
+    # the saved class(es) / constructor arguments of a network, and their elements when both are lists walked with zip
+    cls_names = roles.field(roles.nets(), "_cls")
+    init_names = roles.field(roles.nets(), "_init_dict")
+    pair_loops = [n for n in ast.walk(fn.node) if isinstance(n, ast.For) and isinstance(n.iter, ast.Call) and call_name(n.iter) == "zip"
+                  and any(isinstance(a, ast.Name) and a.id in cls_names for a in n.iter.args)]
+    elem_cls = {lp.target.elts[0].id for lp in pair_loops if isinstance(lp.target, ast.Tuple) and lp.target.elts and isinstance(lp.target.elts[0], ast.Name)}
+
+    def rebuilds(c: ast.Call) -> bool:
+        return isinstance(c.func, ast.Name) and c.func.id in cls_names | elem_cls and any(isinstance(k, ast.keyword) and k.arg is None for k in c.keywords)
+
+    # the optimizer under construction: the local bound to OptimizerWrapper(...)
+    opt_names = {n for n, v in roles.binds if isinstance(v, ast.Call) and call_name(v) == "OptimizerWrapper"}
+
+    def on_optimizer(c: ast.Call) -> bool:
+        recv = c.func.value
+        return (isinstance(recv, ast.Name) and recv.id in opt_names) or (isinstance(recv, ast.Attribute) and "optimizer" in recv.attr)
+
+    state_loads = [c for c in calls_in(fn.node) if last_attr(c) == "load_state_dict" and isinstance(c.func, ast.Attribute)]
     # phases (first node of each)
-    build = [cfg.node_of(c) for c in calls_in(fn.node) if (dotted(c.func) in ("module_cls", "mod_cls", "mod")) and any(isinstance(k, ast.keyword) and k.arg is None for k in c.keywords)]
+    build = [cfg.node_of(c) for c in calls_in(fn.node) if rebuilds(c)]
     build = [b for b in build if b is not None]
-    hooks = [cfg.node_of(c) for c in calls_in(fn.node) if call_name(c) == "self.mutation_hook"]
-    loads = [cfg.node_of(c) for c in calls_in(fn.node) if last_attr(c) == "load_state_dict" and "optimizer" not in ast.unparse(c.func.value)]
+    hooks = [cfg.node_of(c) for c in calls_in(fn.node) if call_name(c) == f"{agent}.mutation_hook"]
+    loads = [cfg.node_of(c) for c in state_loads if not on_optimizer(c)]
     opts = [cfg.node_of(c) for c in calls_in(fn.node) if call_name(c) == "OptimizerWrapper"]
-    oload = [cfg.node_of(c) for c in calls_in(fn.node) if last_attr(c) == "load_state_dict" and "optimizer" in ast.unparse(c.func.value)]
+    oload = [cfg.node_of(c) for c in state_loads if on_optimizer(c)]
     ck.ob("C07.2", fn, fn.node, len(build) >= 2 and len(loads) >= 2 and len(opts) == 1 and len(oload) == 1, f"{label}: has the rebuild / load-state / optimizer / optimizer-state phases",
           detail=f"rebuild sites {len(build)}, module state loads {len(loads)}, optimizer builds {len(opts)}, optimizer state loads {len(oload)}", construct=f"{label}: phases")
     if not (build and loads and opts and oload):
@@ -293,29 +445,58 @@ def _order(ck: Check, repo: Repo, fn: Fn, modules_var: Optional[str]) -> None:
     ck.ob("C07.2", fn, oload[0].ast, before(opts, oload) and cfg.dominates(opts[0], oload[0]), f"{label}: each optimizer receives its saved state after it was created")
     # module class/init_dict pairing
     for c in calls_in(fn.node):
-        if dotted(c.func) in ("module_cls",) and c.keywords and c.keywords[0].arg is None:
-            ck.ob("C07.2", fn, c, dotted(c.keywords[0].value) == "init_dict", f"{label}: a network is rebuilt as saved_class(**saved_init_dict)")
-    zips = [n for n in ast.walk(fn.node) if isinstance(n, ast.For) and isinstance(n.iter, ast.Call) and call_name(n.iter) == "zip" and "module_cls" in ast.unparse(n.iter)]
-    ck.ob("C07.2", fn, zips[0] if zips else fn.node, bool(zips) and [dotted(a) for a in zips[0].iter.args] == ["module_cls", "init_dict"], f"{label}: for network lists class k is paired with init_dict k")
+        if isinstance(c.func, ast.Name) and c.func.id in cls_names and c.keywords and c.keywords[0].arg is None:
+            ck.ob("C07.2", fn, c, isinstance(c.keywords[0].value, ast.Name) and c.keywords[0].value.id in init_names, f"{label}: a network is rebuilt as saved_class(**saved_init_dict)")
+    zips = pair_loops
+    ck.ob("C07.2", fn, zips[0] if zips else fn.node, bool(zips) and len(zips[0].iter.args) == 2 and dotted(zips[0].iter.args[0]) in cls_names and dotted(zips[0].iter.args[1]) in init_names,
+          f"{label}: for network lists class k is paired with init_dict k")
     # optimizer arguments
     oc = [c for c in calls_in(fn.node) if call_name(c) == "OptimizerWrapper"][0]
     n = cfg.node_of(oc)
     lr = get_kw(oc, "lr", 2)
-    ok = isinstance(lr, ast.Call) and call_name(lr) == "getattr" and dotted(lr.args[0]) == "self"
+    ok = isinstance(lr, ast.Call) and call_name(lr) == "getattr" and dotted(lr.args[0]) == agent
     ck.ob("C07.2", fn, oc, ok, f"{label}: the optimizer's learning rate is read from the agent attribute named in the checkpoint", detail=short(lr, 60))
     nets = get_kw(oc, "networks", 1)
     vals = [cfg.value_of_def(d, dotted(nets)) for d in cfg.defs_reaching(n, dotted(nets))] if isinstance(nets, ast.Name) else []
     src = " ".join(ast.unparse(v) for v in vals if v is not None)
-    want = f"{modules_var}[" if modules_var else "getattr(self, "
     alts = []
     for v in vals:
         alts += [v.body, v.orelse] if isinstance(v, ast.IfExp) else [v]
-    ck.ob("C07.2", fn, oc, bool(alts) and all(a is not None and want in ast.unparse(a) and "opt_networks" in ast.unparse(a) for a in alts),
+    # the names of the optimizer's networks as saved, and where the freshly loaded networks are taken from
+    named = roles.field(roles.opts(), "_networks")
+    store: Set[str] = set()
+    if collected:
+        built = {nm for nm, v in roles.binds if isinstance(v, ast.Call) and rebuilds(v)}
+        for x in ast.walk(fn.node):
+            if isinstance(x, ast.Assign) and isinstance(x.targets[0], ast.Subscript) and isinstance(x.targets[0].value, ast.Name) \
+                    and ((isinstance(x.value, ast.Name) and x.value.id in built) or (isinstance(x.value, ast.Call) and rebuilds(x.value))):
+                store.add(x.targets[0].value.id)
+
+    def over_loaded(a: Optional[ast.AST]) -> bool:
+        if a is None or not any(isinstance(x, ast.Name) and x.id in named for x in ast.walk(a)):
+            return False
+        if collected:
+            return any(isinstance(x, ast.Subscript) and isinstance(x.value, ast.Name) and x.value.id in store for x in ast.walk(a))
+        return any(isinstance(x, ast.Call) and call_name(x) == "getattr" and len(x.args) >= 2 and dotted(x.args[0]) == agent for x in ast.walk(a))
+
+    ck.ob("C07.2", fn, oc, bool(alts) and all(over_loaded(a) for a in alts),
           f"{label}: the optimizer is built over the freshly loaded networks named in the checkpoint (single- and multi-agent form)", detail=src[:160])
-    sd = [c for c in calls_in(fn.node) if last_attr(c) == "load_state_dict" and "optimizer" in ast.unparse(c.func.value)][0]
-    ck.ob("C07.2", fn, sd, "_state_dict" in ast.unparse(sd.args[0]) or "state_dict" == dotted(sd.args[0]), f"{label}: the optimizer state loaded is the saved one")
-    # attributes restored
-    attr_sets = [cfg.node_of(c) for c in calls_in(fn.node) if call_name(c) == "setattr" and dotted(c.args[0]) == "self" and dotted(c.args[1]) == "attribute"]
+    sd = [c for c in state_loads if on_optimizer(c)][0]
+    arg = sd.args[0] if sd.args else None
+    saved = arg is not None and roles.reads(arg, roles.opts(), "_state_dict")
+    if not saved and isinstance(arg, ast.Name):
+        sn = cfg.node_of(sd)
+        dv = [cfg.value_of_def(d, arg.id) for d in cfg.defs_reaching(sn, arg.id)] if sn is not None else []
+        held = roles.field(roles.opts(), "_state_dict")
+        saved = bool(dv) and all(v is not None and (roles.reads(v, roles.opts(), "_state_dict") or any(isinstance(x, ast.Name) and x.id in held for x in ast.walk(v))) for v in dv)
+    ck.ob("C07.2", fn, sd, saved, f"{label}: the optimizer state loaded is the saved one")
+    # attributes restored: setattr(<agent>, <loop variable>, <checkpoint>[<loop variable>] / .get(<loop variable>))
+    attr_sets = []
+    for lp in [x for x in walk_no_nested(fn.node) if isinstance(x, ast.For) and isinstance(x.target, ast.Name)]:
+        for c in calls_in(lp):
+            key = _key_read(c.args[2], roles.ckpt) if call_name(c) == "setattr" and len(c.args) == 3 else None
+            if key is not None and dotted(c.args[0]) == agent and dotted(c.args[1]) == lp.target.id and dotted(key) == lp.target.id:
+                attr_sets.append(cfg.node_of(c))
     attr_sets = [a for a in attr_sets if a is not None]
     ck.ob("C07.2", fn, attr_sets[0].ast if attr_sets else fn.node, len(attr_sets) == 1 and before(oload, attr_sets), f"{label}: plain attributes are restored from the checkpoint (after networks and optimizers)")
     # hooks vs loads
@@ -366,8 +547,8 @@ def _completeness(ck: Check, repo: Repo) -> None:
 
 
 def _alias_attrs(ck: Check, repo: Repo, writer: Fn) -> None:
-    wsrc = ast.unparse(writer.node)
-    excludes_modules = "isinstance(value, torch.nn.Module)" in wsrc or "isinstance(value, nn.Module)" in wsrc
+    # the writer drops values that are torch modules: some filter tests isinstance(<value>, torch.nn.Module)
+    excludes_modules = has(writer, "isinstance($value, torch.nn.Module)") or has(writer, "isinstance($value, nn.Module)")
     n = 0
     for modname, cname in ALGOS:
         reg = extract(repo, modname, cname)
@@ -390,34 +571,56 @@ def _alias_attrs(ck: Check, repo: Repo, writer: Fn) -> None:
 
 def _prefix(ck: Check, repo: Repo, fns) -> None:
     for fn in fns:
+        roles = _Roles(fn)
+        cfg = CFG(fn.node)
+        prefix_of = {**roles.sel["modules"], **roles.sel["optimizers"]}  # selection local -> variables it was filtered with
         comps = [n for n in ast.walk(fn.node) if isinstance(n, ast.DictComp) and any("startswith" in ast.unparse(i) for g in n.generators for i in g.ifs)]
         ck.floor("C07.5", len(comps), 3, f"{fn.name}: prefix selections")
         for n in ast.walk(fn.node):
-            if isinstance(n, ast.Subscript) and dotted(n.value) in ("net_dict", "opt_dict") and isinstance(n.ctx, ast.Load):
-                ck.ob("C07.5", fn, n, _fsuffix(n.slice) is not None and ast.unparse(n.slice.values[0].value) == "name",
+            if isinstance(n, ast.Subscript) and isinstance(n.value, ast.Name) and n.value.id in prefix_of and isinstance(n.ctx, ast.Load):
+                # the selection(s) that reach this read, and the variable each was filtered with
+                at = cfg.node_of(n)
+                sels = [roles.selection(v) for v in (cfg.value_of_def(d, n.value.id) for d in (cfg.defs_reaching(at, n.value.id) if at is not None else []))]
+                want = {s[1] for s in sels if s is not None} if sels and all(s is not None for s in sels) else set()
+                ck.ob("C07.5", fn, n, _fsuffix(n.slice) is not None and len(want) == 1 and dotted(n.slice.values[0].value) in want,
                       f"{fn.name}: entries selected by prefix are read with the exact key f\"{{name}}_…\" (a longer name sharing the prefix cannot be picked up)")
         for n in ast.walk(fn.node):
-            if isinstance(n, ast.Call) and isinstance(n.func, ast.Attribute) and n.func.attr in ("values", "items") and dotted(n.func.value) in ("net_dict", "opt_dict"):
+            if isinstance(n, ast.Call) and isinstance(n.func, ast.Attribute) and n.func.attr in ("values", "items") and isinstance(n.func.value, ast.Name) and n.func.value.id in prefix_of:
                 ck.ob("C07.5", fn, n, False, f"{fn.name}: the prefix-selected dictionary is never iterated as a whole")
 
 
 def _wrapper(ck: Check, repo: Repo) -> None:
     sv = repo.fn(WR, "AgentWrapper.save_checkpoint")
     ld = repo.fn(WR, "AgentWrapper.load_checkpoint")
-    s, l = ast.unparse(sv.node), ast.unparse(ld.node)
-    ck.ob("C07.1", sv, sv.node, "checkpoint = get_checkpoint_dict(self.agent)" in s and all(f"checkpoint['{k}']" in s for k in ("wrapper_cls", "wrapper_init_dict", "wrapper_attrs")),
+    # save: <checkpoint> = get_checkpoint_dict(self.agent); <checkpoint>["wrapper_..."] appear
+    saved = {n for n, v in _bindings(sv.node) if isinstance(v, ast.Call) and call_name(v) == "get_checkpoint_dict" and [dotted(a) for a in v.args] == ["self.agent"]}
+    keys = {const_value(_key_read(x, saved)) for x in ast.walk(sv.node) if isinstance(x, ast.Subscript)}
+    ck.ob("C07.1", sv, sv.node, bool(saved) and {"wrapper_cls", "wrapper_init_dict", "wrapper_attrs"} <= keys,
           "a wrapped agent's checkpoint contains the agent's checkpoint plus the wrapper's class, constructor arguments and attributes", construct="wrapper save")
-    ck.ob("C07.1", ld, ld.node, "self.agent.load_checkpoint(path)" in l and "for key, value in checkpoint['wrapper_attrs'].items():\n        setattr(self, key, value)" in l,
+    # load: the wrapped agent loads the same file, then every saved wrapper attribute is set on the wrapper
+    inner = any(call_name(c) == "self.agent.load_checkpoint" and [dotted(a) for a in c.args] == ["path"] and not c.keywords for c in calls_in(ld.node))
+    ck.ob("C07.1", ld, ld.node, inner and has(ld, "for $key, $value in $checkpoint['wrapper_attrs'].items():\n    setattr(self, $key, $value)"),
           "loading into a wrapper restores the wrapped agent and then the wrapper's attributes", construct="wrapper load")
+    # load(): <cls> / <init> / <attrs> = <checkpoint>.get("wrapper_..."); <agent> = <cls>(<agent>, **<init>); setattr(<agent>, a, <attrs>[a]) for every a
     load = repo.fn(BASE, "EvolvableAlgorithm.load")
-    ls = ast.unparse(load.node)
-    ck.ob("C07.1", load, load.node, "wrapper_cls(self, **init_dict)" in ls and "checkpoint.get('wrapper_init_dict')" in ls and "setattr(self, attr, wrapper_attributes[attr])" in ls,
+    roles = _Roles(load)
+    agent = roles.agent
+    w_cls = _bound_to_key(load.node, roles.ckpt, "wrapper_cls")
+    w_init = _bound_to_key(load.node, roles.ckpt, "wrapper_init_dict")
+    w_attrs = _bound_to_key(load.node, roles.ckpt, "wrapper_attrs")
+    rewrapped = any(isinstance(c.func, ast.Name) and c.func.id in w_cls and [dotted(a) for a in c.args] == [agent] and len(c.keywords) == 1 and c.keywords[0].arg is None
+                    and dotted(c.keywords[0].value) in w_init for c in calls_in(load.node))
+    attrs_set = any(call_name(c) == "setattr" and len(c.args) == 3 and dotted(c.args[0]) == agent and isinstance(c.args[1], ast.Name) and isinstance(c.args[2], ast.Subscript)
+                    and isinstance(_key_read(c.args[2], w_attrs), ast.Name) and _key_read(c.args[2], w_attrs).id == c.args[1].id for c in calls_in(load.node))
+    ck.ob("C07.1", load, load.node, rewrapped and bool(w_init) and attrs_set,
           "load() re-creates the wrapper around the restored agent with its saved constructor arguments and attributes", construct="load re-wraps")
 
 
 _BF = "agilerl/algorithms/core/base.py"
 _WF = "agilerl/wrappers/agent.py"
 VARIANTS = [
+    ("bandit-theta0-in-graph", "agilerl/algorithms/neural_ucb_bandit.py", "            [w.flatten() for w in self.exp_layer.parameters() if w.requires_grad]\n        ).detach()", "            [w.flatten() for w in self.exp_layer.parameters() if w.requires_grad]\n        )", "fire", "C07.9"),
+    ("bandit-theta0-no-grad-block-ok", "agilerl/algorithms/neural_ucb_bandit.py", "        self.theta_0 = torch.cat(\n            [w.flatten() for w in self.exp_layer.parameters() if w.requires_grad]\n        ).detach()", "        with torch.no_grad():\n            self.theta_0 = torch.cat(\n                [w.flatten() for w in self.exp_layer.parameters() if w.requires_grad]\n            )", "silent", None),
     ("multi-input-output-activation-not-described", "agilerl/modules/multi_input.py", "            self.output_activation = activation\n            self.output = get_activation(activation)", "            self.output = get_activation(activation)", "fire", "C07.8"),
     ("mlp-activation-not-described", "agilerl/modules/mlp.py", "        self.activation = activation\n        self.recreate_network()\n\n    @mutation(MutationType.LAYER)\n    def add_layer", "        self.recreate_network()\n\n    @mutation(MutationType.LAYER)\n    def add_layer", "fire", "C07.8"),
     ("optimizer-lr-overwritten-after-load", "agilerl/algorithms/core/wrappers.py", "            self.optimizer.load_state_dict(state_dict)\n\n    def state_dict(self)", "            self.optimizer.load_state_dict(state_dict)\n            for param_group in self.optimizer.param_groups:\n                param_group[\"lr\"] = self.lr\n\n    def state_dict(self)", "fire", "C07.6"),
